@@ -95,6 +95,8 @@ def write_replay(prop, kind, seed, payload):
     p = common.REPLAYS / name
     payload = dict(payload)
     payload.update({"property": prop.pid, "kind": kind, "seed": seed,
+                    "reproduce_full_run_cmd": f"VERIF_SEED={seed} /venv/bin/python harness/run.py --property {prop.pid} --tier {os.environ.get('VERIF_TIER', 'quick')}"
+                                              "  (the case was observed in-process after earlier cases; use this if it needs that history)",
                     "replay_cmd": f"/venv/bin/python harness/run.py --property {prop.pid} --replay replays/{name}"})
     p.write_text(json.dumps(canon(payload), indent=1))
     return p
